@@ -13,6 +13,7 @@ import (
 	"fmt"
 	"hash/fnv"
 	"io"
+	"os"
 	"reflect"
 	"runtime"
 	"strings"
@@ -56,7 +57,13 @@ const (
 
 // Config parametrises one run.
 type Config struct {
-	Policy string
+	// HoldPct: probability (percent) that a task which opens a write window
+	// (rules R8/R10) is kept parked there for a while - until the other
+	// tasks have passed some scheduling points or cannot go on - instead of
+	// for one scheduling point only. A window of a few statements is met by
+	// another task far more often that way.
+	HoldPct int
+	Policy  string
 	// SwitchPct is, for the random policy, the probability (percent) that a
 	// scheduling point considers another task at all.
 	SwitchPct int
@@ -87,21 +94,22 @@ const (
 
 // Task is one simulated routine.
 type Task struct {
-	condWait bool
-	ID       int
-	Parent   int
-	state    state
-	wake     chan struct{}
-	exited   chan struct{}
-	killed   bool
-	started  bool
-	prio     int
-	Blocked  string // what it is blocked on (for reports)
-	PanicVal any    // value of a panic that ended the task
-	Panicked bool
-	w        *waiter
-	Yields   int // number of Yield calls seen (all sites)
-	liveIdx  int
+	holdUntil int
+	condWait  bool
+	ID        int
+	Parent    int
+	state     state
+	wake      chan struct{}
+	exited    chan struct{}
+	killed    bool
+	started   bool
+	prio      int
+	Blocked   string // what it is blocked on (for reports)
+	PanicVal  any    // value of a panic that ended the task
+	Panicked  bool
+	w         *waiter
+	Yields    int // number of Yield calls seen (all sites)
+	liveIdx   int
 }
 
 // Event is one entry of the run's event log.
@@ -185,7 +193,8 @@ type Stats struct {
 	Tasks          int
 	MaxRunnable    int
 	ForcedSwitches int
-	MapWindows     int // write windows opened on shared maps
+	MapWindows     int
+	WindowHolds    int // write windows opened on shared maps
 }
 
 // Sched is one simulated execution.
@@ -202,6 +211,7 @@ type Sched struct {
 	chans     map[uintptr]*chanState
 	mus       map[*sync.Mutex]*muState
 	conds     map[*sync.Cond][]*Task
+	held      []*Task // tasks parked with a write window held open (Config.HoldPct)
 	rws       map[*sync.RWMutex]*muState
 	doneCh    chan Outcome
 	ended     bool
@@ -535,11 +545,33 @@ func (s *Sched) pick(r []*Task, atPoint bool) *Task {
 
 // dispatch returns the next task to run when the current one cannot
 // continue, advancing the clock if necessary; nil means the run is over.
+// releaseHeld makes the tasks runnable again whose hold has run out (all of
+// them when nothing else can run).
+func (s *Sched) releaseHeld(all bool) {
+	k := 0
+	for _, t := range s.held {
+		if all || t.holdUntil <= s.Stats.Steps || t.state != blocked {
+			s.ready(t)
+			continue
+		}
+		s.held[k] = t
+		k++
+	}
+	s.held = s.held[:k]
+}
+
 func (s *Sched) dispatch() *Task {
 	for {
+		if len(s.held) > 0 {
+			s.releaseHeld(false)
+		}
 		r := s.runnable()
 		if len(r) > 0 {
 			return s.pick(r, false)
+		}
+		if len(s.held) > 0 {
+			s.releaseHeld(true)
+			continue
 		}
 		if len(s.timers) == 0 {
 			return nil
@@ -605,6 +637,9 @@ func (s *Sched) point(site string) {
 	if s.changes != nil && s.changes[s.Stats.Steps] {
 		s.lowPrio--
 		s.cur.prio = s.lowPrio
+	}
+	if len(s.held) > 0 {
+		s.releaseHeld(false)
 	}
 	// clock jumps are a fault: they stop after maxTimeJumps per run
 	if len(s.timers) > 0 && s.cfg.TimeJumpPct > 0 && s.Stats.TimeJumps < maxTimeJumps && s.ch.Pct(s.cfg.TimeJumpPct) {
@@ -1160,6 +1195,9 @@ func (s *Sched) MapAccess(p unsafe.Pointer, write, window bool, site string) {
 	if s.killing {
 		return
 	}
+	if dbgSite != "" && strings.Contains(site, dbgSite) {
+		fmt.Fprintf(os.Stderr, "MapAccess task=%d p=%p write=%v window=%v site=%s open=%v live=%d\n", s.cur.ID, p, write, window, site, s.mapWins[p], len(s.live))
+	}
 	for _, w := range s.mapWins[p] {
 		if w.task == s.cur.ID {
 			continue
@@ -1187,7 +1225,15 @@ func (s *Sched) MapAccess(p unsafe.Pointer, write, window bool, site string) {
 	id := s.cur.ID
 	s.mapWins[p] = append(s.mapWins[p], mapWin{id, site})
 	s.Stats.MapWindows++
-	s.point("mapw:" + site)
+	if s.cfg.HoldPct > 0 && s.ch.Pct(s.cfg.HoldPct) {
+		t := s.cur
+		t.holdUntil = s.Stats.Steps + 30 + s.ch.Intn(300)
+		s.held = append(s.held, t)
+		s.Stats.WindowHolds++
+		s.block("write window held open (" + site + ")")
+	} else {
+		s.point("mapw:" + site)
+	}
 	ws := s.mapWins[p]
 	for i, w := range ws {
 		if w.task == id {
@@ -1201,6 +1247,8 @@ func (s *Sched) MapAccess(p unsafe.Pointer, write, window bool, site string) {
 		s.mapWins[p] = ws
 	}
 }
+
+var dbgSite = os.Getenv("SCHED_DEBUG_SITE")
 
 // RaceMap returns the map name of a MapRaces entry (that of the open write
 // window).
